@@ -42,6 +42,7 @@ func TestVerifDoorkeeper(t *testing.T) {
 				u(uint64(sh.dookeeper.M)), u(uint64(sh.dookeeper.K)), i64(int64(pop)))
 		}
 		seen := map[int]bool{} // keys the filter was shown since it was last emptied
+		rejects := 0           // rejected attempts since then, counted by the harness itself
 		resident := map[int]bool{}
 		var residents []int
 		nops := 100 + r.intn(vscale(2500, 6000))
@@ -86,15 +87,20 @@ func TestVerifDoorkeeper(t *testing.T) {
 					continue
 				}
 				capBefore := sh.dookeeper.Capacity
-				if sh.counter > uint(sh.dookeeper.Capacity) {
-					seen = map[int]bool{} // this attempt empties the filter first
+				if rejects > sh.dookeeper.Capacity {
+					// more than Capacity first sightings since the filter was last emptied: this attempt may empty it
+					seen = map[int]bool{}
+					rejects = 0
 				}
 				val++
 				ok := s.Set(k, val, 1, 0)
 				if !ok && seen[k] {
-					tr.viol(fmt.Sprintf("C06: Set of key %d returned false although the doorkeeper of its shard had seen the key since it was last emptied (counter %d, capacity %d)", k, sh.counter, sh.dookeeper.Capacity))
+					tr.viol(fmt.Sprintf("C06: Set of key %d returned false although the doorkeeper of its shard had seen the key since it was last emptied (the harness counted %d rejections since then, filter capacity %d, the shard's own counter reads %d)", k, rejects, sh.dookeeper.Capacity, sh.counter))
 				}
 				seen[k] = true
+				if !ok {
+					rejects++
+				}
 				if ok {
 					resident[k] = true
 					residents = append(residents, k)
